@@ -1,4 +1,189 @@
 ----------------------------- MODULE VersionText -----------------------------
-EXTENDS Version
-JVParse(e) == {}
+(***************************************************************************)
+(* The version-string language as a byte-level state machine, and the      *)
+(* postcondition of Version::parse (C05), of the print/parse round trip    *)
+(* (C12) and of error reporting (C17).                                     *)
+(*                                                                         *)
+(* VStep(s, c) consumes one byte.  The first failure is absorbing and       *)
+(* records its kind and offset.  VFinish(s) classifies the whole input:     *)
+(*   MUST-accept  canonical  major.minor.patch[-pre][+build]               *)
+(*   MAY-accept   canonical core plus documented decorations: surrounding  *)
+(*                blanks, leading v/V (and blanks after it), leading zeros *)
+(*                on a component, prerelease written without its hyphen    *)
+(*   MUST-reject  everything else; components above MAX_SAFE_INTEGER;      *)
+(*                length above MAX_LENGTH                                  *)
+(* In both accept classes the fields are exactly the denoted ones.         *)
+(***************************************************************************)
+EXTENDS Version, FiniteSets
+
+MAX_LENGTH == 256
+
+IsDigit(c) == c >= 48 /\ c <= 57
+IsAlpha(c) == (c >= 65 /\ c <= 90) \/ (c >= 97 /\ c <= 122)
+IsIdent(c) == IsDigit(c) \/ IsAlpha(c) \/ c = 45
+IsBlank(c) == c \in {32, 9, 10, 13}
+
+VS0 == [ph |-> "lead", M |-> <<>>, m |-> <<>>, p |-> <<>>, pre |-> <<>>, bld |-> <<>>, cur |-> <<>>,
+       dec |-> FALSE, loose |-> FALSE, pos |-> 0, cstart |-> 0, fkind |-> "none", foff |-> 0]
+
+\* generic syntax failure at the current byte
+VDead(s) == [s EXCEPT !.ph = "dead", !.fkind = "syntax", !.foff = s.pos]
+\* a numeric component is complete: range check (first failure if it does not fit)
+NumFail(s, d) == IF ~FitsU64(d) THEN [s EXCEPT !.ph = "dead", !.fkind = "parseint", !.foff = s.cstart]
+                 ELSE [s EXCEPT !.ph = "dead", !.fkind = "maxint", !.foff = s.cstart]
+DVal(c) == c - 48
+LooseNum(d) == Len(d) > 1 /\ d[1] = 0
+
+VStepLive(s, c) ==
+  CASE s.ph = "lead" ->
+         IF IsBlank(c) THEN [s EXCEPT !.dec = TRUE]
+         ELSE IF c = 118 \/ c = 86 THEN [s EXCEPT !.ph = "afterv", !.dec = TRUE]
+         ELSE IF IsDigit(c) THEN [s EXCEPT !.ph = "M", !.M = <<DVal(c)>>, !.cstart = s.pos]
+         ELSE VDead(s)
+    [] s.ph = "afterv" ->
+         IF IsBlank(c) THEN s
+         ELSE IF IsDigit(c) THEN [s EXCEPT !.ph = "M", !.M = <<DVal(c)>>, !.cstart = s.pos]
+         ELSE VDead(s)
+    [] s.ph = "M" ->
+         IF IsDigit(c) THEN [s EXCEPT !.M = Append(@, DVal(c))]
+         ELSE IF ~FitsSafe(s.M) THEN NumFail(s, s.M)
+         ELSE IF c = 46 THEN [s EXCEPT !.ph = "m0", !.loose = @ \/ LooseNum(s.M)]
+         ELSE VDead(s)
+    [] s.ph = "m0" -> IF IsDigit(c) THEN [s EXCEPT !.ph = "m", !.m = <<DVal(c)>>, !.cstart = s.pos] ELSE VDead(s)
+    [] s.ph = "m" ->
+         IF IsDigit(c) THEN [s EXCEPT !.m = Append(@, DVal(c))]
+         ELSE IF ~FitsSafe(s.m) THEN NumFail(s, s.m)
+         ELSE IF c = 46 THEN [s EXCEPT !.ph = "p0", !.loose = @ \/ LooseNum(s.m)]
+         ELSE VDead(s)
+    [] s.ph = "p0" -> IF IsDigit(c) THEN [s EXCEPT !.ph = "p", !.p = <<DVal(c)>>, !.cstart = s.pos] ELSE VDead(s)
+    [] s.ph = "p" ->
+         IF IsDigit(c) THEN [s EXCEPT !.p = Append(@, DVal(c))]
+         ELSE IF ~FitsSafe(s.p) THEN NumFail(s, s.p)
+         ELSE LET t == [s EXCEPT !.loose = @ \/ LooseNum(s.p)] IN
+              IF c = 45 THEN [t EXCEPT !.ph = "pre0"]
+              ELSE IF c = 43 THEN [t EXCEPT !.ph = "b0"]
+              ELSE IF IsAlpha(c) THEN [t EXCEPT !.ph = "pre", !.cur = <<c>>, !.loose = TRUE]
+              ELSE IF IsBlank(c) THEN [t EXCEPT !.ph = "trail", !.dec = TRUE]
+              ELSE VDead(s)
+    [] s.ph = "pre0" -> IF IsIdent(c) THEN [s EXCEPT !.ph = "pre", !.cur = <<c>>] ELSE VDead(s)
+    [] s.ph = "pre" ->
+         IF IsIdent(c) THEN [s EXCEPT !.cur = Append(@, c)]
+         ELSE IF c = 46 THEN [s EXCEPT !.ph = "pre0", !.pre = Append(@, s.cur), !.cur = <<>>]
+         ELSE IF c = 43 THEN [s EXCEPT !.ph = "b0", !.pre = Append(@, s.cur), !.cur = <<>>]
+         ELSE IF IsBlank(c) THEN [s EXCEPT !.ph = "trail", !.pre = Append(@, s.cur), !.cur = <<>>, !.dec = TRUE]
+         ELSE VDead(s)
+    [] s.ph = "b0" -> IF IsIdent(c) THEN [s EXCEPT !.ph = "b", !.cur = <<c>>] ELSE VDead(s)
+    [] s.ph = "b" ->
+         IF IsIdent(c) THEN [s EXCEPT !.cur = Append(@, c)]
+         ELSE IF c = 46 THEN [s EXCEPT !.ph = "b0", !.bld = Append(@, s.cur), !.cur = <<>>]
+         ELSE IF IsBlank(c) THEN [s EXCEPT !.ph = "trail", !.bld = Append(@, s.cur), !.cur = <<>>, !.dec = TRUE]
+         ELSE VDead(s)
+    [] s.ph = "trail" -> IF IsBlank(c) THEN s ELSE VDead(s)
+
+VStep(s, c) == IF s.ph = "dead" THEN [s EXCEPT !.pos = @ + 1]
+              ELSE LET t == VStepLive(s, c) IN [t EXCEPT !.pos = s.pos + 1]
+
+RECURSIVE VRunFrom(_, _, _)
+VRunFrom(s, bytes, i) == IF i > Len(bytes) THEN s ELSE VRunFrom(VStep(s, bytes[i]), bytes, i + 1)
+VRun(bytes) == VRunFrom(VS0, bytes, 1)
+
+\* identifier as the crate denotes it: digits-only text that fits u64 is a number
+AllDigits(b) == \A i \in 1..Len(b) : IsDigit(b[i])
+IdOf(b) == IF AllDigits(b) /\ FitsU64([i \in 1..Len(b) |-> DVal(b[i])])
+           THEN NumId(Norm([i \in 1..Len(b) |-> DVal(b[i])]))
+           ELSE TxtId(b)
+IdsOf(l) == [i \in 1..Len(l) |-> IdOf(l[i])]
+
+\* end of input: verdict class, fields, first failure
+VFinish(s) ==
+  LET okRec(pre, bld, must) ==
+        [ok |-> TRUE, must |-> must /\ ~LooseNum(s.p),
+         val |-> Ver(Norm(s.M), Norm(s.m), Norm(s.p), IdsOf(pre), IdsOf(bld)), fkind |-> "none", foff |-> 0]
+      fail(kind, off) == [ok |-> FALSE, must |-> FALSE, val |-> <<>>, fkind |-> kind, foff |-> off]
+  IN CASE s.ph = "dead" -> fail(s.fkind, s.foff)
+       [] s.ph = "p" -> IF ~FitsSafe(s.p)
+                        THEN fail(IF FitsU64(s.p) THEN "maxint" ELSE "parseint", s.cstart)
+                        ELSE okRec(s.pre, s.bld, ~s.dec /\ ~s.loose)
+       [] s.ph = "pre" -> okRec(Append(s.pre, s.cur), s.bld, ~s.dec /\ ~s.loose)
+       [] s.ph = "b" -> okRec(s.pre, Append(s.bld, s.cur), ~s.dec /\ ~s.loose)
+       [] s.ph = "trail" -> okRec(s.pre, s.bld, FALSE)
+       [] s.ph \in {"M", "m"} ->
+             LET d == IF s.ph = "M" THEN s.M ELSE s.m IN
+             IF ~FitsSafe(d) THEN fail(IF FitsU64(d) THEN "maxint" ELSE "parseint", s.cstart)
+             ELSE fail("syntax", s.pos)
+       [] OTHER -> fail("syntax", s.pos)
+
+\* the value of the component at which a "maxint" failure happened
+FailedComponent(s) == IF s.m = <<>> THEN s.M ELSE IF s.p = <<>> THEN s.m ELSE s.p
+
+VClassify(bytes) ==
+  LET s == VRun(bytes)
+      f == VFinish(s)
+      long == Len(bytes) > MAX_LENGTH
+  IN [class |-> IF long \/ ~f.ok THEN "reject" ELSE IF f.must THEN "must" ELSE "may",
+      val |-> f.val,
+      \* first failure; "maxlength" for an otherwise well-formed version that is too long
+      fkind |-> IF long /\ f.ok THEN "maxlength" ELSE f.fkind,
+      foff |-> f.foff,
+      comp |-> IF f.fkind = "maxint" THEN Norm(FailedComponent(s)) ELSE <<>>,
+      \* nothing but canonical text precedes the failure (no decoration an implementation may refuse)
+      plain |-> ~s.dec /\ ~s.loose,
+      long |-> long]
+
+\* ---- error reporting (C17) ----
+IsCont(c) == c >= 128 /\ c <= 191
+IsBoundary(bytes, off) == off >= 0 /\ off <= Len(bytes) /\ (off = Len(bytes) \/ ~IsCont(bytes[off + 1]))
+Newlines(bytes, off) == Cardinality({i \in 1..off : bytes[i] = 10})
+LineStart(bytes, off) == LET nl == {i \in 1..off : bytes[i] = 10} IN IF nl = {} THEN 0 ELSE CHOOSE i \in nl : \A j \in nl : j <= i
+\* column counted in bytes, or in characters (both readings of "column" are accepted)
+ColBytes(bytes, off) == off - LineStart(bytes, off)
+ColChars(bytes, off) == Cardinality({i \in (LineStart(bytes, off) + 1)..off : ~IsCont(bytes[i])})
+
+\* clauses common to Version::parse and Range::parse errors
+JErr(text, err) ==
+       Chk(err.input = text, "C17:input-is-original")
+  \cup Chk(err.off >= 0 /\ err.off <= Len(text), "C17:offset-in-range")
+  \cup Chk(err.off <= Len(err.input) => IsBoundary(err.input, err.off), "C17:offset-on-char-boundary")
+  \cup Chk(err.loc.out = "ok", "C17:location-panics")
+  \cup Chk((err.loc.out = "ok" /\ err.input = text /\ err.off <= Len(text)) =>
+             (err.loc.line = Newlines(text, err.off)
+              /\ err.loc.col \in {ColBytes(text, err.off), ColChars(text, err.off)}), "C17:location")
+  \cup Chk(err.diag.out = "ok", "C17:diagnostic-panics")
+  \cup Chk(err.diag.out = "ok" =>
+             (err.diag.render_ok /\ err.diag.has_src /\ Len(err.diag.code) > 0 /\ Len(err.diag.labels) = 1
+              /\ err.diag.labels[1].off = err.off), "C17:diagnostic-renders")
+  \cup Chk(err.kind = "MaxIntError" => FitsU64(err.kval) /\ ~FitsSafe(err.kval), "C17:maxint-value")
+
+JVParse(e) ==
+  LET c == VClassify(e.text)
+      t == e.text
+  IN
+  \* ---- C05
+       Chk(c.class = "must" => e.out = "ok", "C05:canonical-rejected")
+  \cup Chk(c.class = "reject" => e.out = "err", "C05:junk-accepted")
+  \cup Chk((c.class # "reject" /\ e.out = "ok") => e.val = c.val, "C05:fields")
+  \cup Chk(e.fromstr.out = e.out /\ (e.out = "ok" => e.fromstr.val = e.val), "X:fromstr-agrees")
+  \cup Chk(e.deser.out = e.out /\ (e.out = "ok" => e.deser.val = e.val), "C05:serde-deserialize-agrees")
+  \* ---- C12
+  \cup (IF e.out = "ok" THEN
+            Chk(e.print = PrintVersion(e.val), "C12:print")
+       \cup Chk(e.re.out = "ok" /\ e.re.val = e.val, "C12:reparse-equal-five-fields")
+       \cup Chk(e.print2 = e.print, "C12:fixed-point")
+       \cup Chk(e.json = <<34>> \o e.print \o <<34>>, "C12:json-is-printed-string")
+       \cup Chk(e.jback.out = "ok" /\ e.jback.val = e.val, "C12:json-roundtrip")
+       \cup Chk(e.ispre = IsPre(e.val), "X:is-prerelease")
+        ELSE {})
+  \* ---- C17
+  \cup (IF e.out = "err" THEN
+            JErr(t, e.err)
+       \cup Chk(c.fkind = "maxlength" => e.err.kind = "MaxLengthError", "C17:kind-maxlength")
+       \cup Chk(e.err.kind = "MaxLengthError" => c.long, "C17:kind-maxlength")
+       \cup Chk((c.fkind = "maxint" /\ c.plain /\ ~c.long) =>
+                   (e.err.kind = "MaxIntError" /\ e.err.kval = c.comp /\ e.err.off = c.foff), "C17:kind-maxint")
+       \cup Chk((c.fkind = "parseint" /\ c.plain /\ ~c.long) =>
+                   (e.err.kind = "ParseIntError" /\ e.err.off = c.foff), "C17:kind-parseint")
+       \cup Chk(e.err.kind = "NoValidRanges" => FALSE, "C17:kind-novalidranges-from-version-parse")
+        ELSE {})
+  \* ---- C06 (time budget: 50 ms + 100 us per byte)
+  \cup Chk(e.us <= 50000 + 100 * Len(t), "C06:time-budget")
 =============================================================================
